@@ -699,6 +699,17 @@ def compute_l2_key(
     l1_key = rk.l1_key
     l2 = rk.l2
     l2_key = rk.l2_key
+
+    if not (0 <= request_l1 <= 31 and 0 <= request_l2 <= 31):
+        raise ValueError(f"Requested key index L1 {request_l1} L2 {request_l2} is out of range")
+    if not (0 <= l1 <= 31 and 0 <= l2 <= 31):
+        raise ValueError(f"Group key envelope index L1 {l1} L2 {l2} is out of range")
+    if l1 < request_l1 or (l1 == request_l1 and l2 < request_l2):
+        raise ValueError(
+            f"Group key envelope for L1 {l1} L2 {l2} cannot be used to derive the key for "
+            f"L1 {request_l1} L2 {request_l2}"
+        )
+
     reseed_l2 = l2 == 31 or rk.l1 != request_l1
 
     # MS-GKDI 2.2.4 Group key Envelope
@@ -710,7 +721,7 @@ def compute_l2_key(
     if l2 != 31 and l1 != request_l1:
         l1 -= 1
 
-    while l1 != request_l1:
+    while l1 > request_l1:
         reseed_l2 = True
         l1 -= 1
 
@@ -742,7 +753,7 @@ def compute_l2_key(
             64,
         )
 
-    while l2 != request_l2:
+    while l2 > request_l2:
         l2 -= 1
 
         l2_key = kdf(
